@@ -412,6 +412,27 @@ func finish(c *Ctx, r *Report, verifDir string, known []KnownFinding, seed int, 
 
 // includePrereq evaluates another property's rules as prerequisite clauses of this one: a violation of the
 // prerequisite is a violation here too (e.g. completeness needs exact lookaheads and lossless packing).
+// includeSome evaluates part of another property (run fills a scratch report) and adopts the obligations whose
+// construct contains one of the given substrings as prerequisite clauses `clause←<their clause>`.
+func includeSome(r *Report, clause string, run func(sub *Report), constructs ...string) {
+	sub := &Report{Prop: r.Prop, Extra: map[string]interface{}{}}
+	run(sub)
+	n := 0
+	for _, o := range sub.Obls {
+		for _, want := range constructs {
+			if strings.Contains(o.Construct, want) {
+				no := r.add(clause+"←"+o.Clause, o.Rule, o.Construct, o.Pos, o.Verdict, o.Detail)
+				no.Nontriv = true
+				n++
+				break
+			}
+		}
+	}
+	if n == 0 {
+		r.Undecided(clause, "PREREQUISITE", strings.Join(constructs, ","), "-", "the prerequisite rule produced no obligation (renamed or removed construct)")
+	}
+}
+
 func includePrereq(c *Ctx, r *Report, clause string, f propFunc) {
 	sub := &Report{Prop: r.Prop, Extra: map[string]interface{}{}}
 	f(c, sub)
